@@ -12,12 +12,15 @@ Four parts (see coq/Props/C11.v for what is a theorem and what is not):
       restriction);
   (c) the direct totality oracle on the implementation (model independent, ALL constructs): compile
       every generated / mutated input under an alarm; anything but a dict, SyntaxError or ValueError is
-      reported;
+      reported.  Besides the random line sequences and the mutated repository files two systematic families:
+      deep-nesting probes (deep_inputs: every recursive construct through every recursive position in every
+      host at depths below / at / above the caps and far above) and the call-shape matrix (call_matrix: target
+      parameters x argument shapes x call sites in otherwise valid stories); both also feed (b) and (d);
   (d) for accepted inputs, the C12 structural validator over the real dict.
 
 Signatures (computed from the structure of the case, never from messages):
   internal-error:<ExceptionName>:<function at the bottom of the traceback>
-  timeout:<generator family>
+  timeout:<generator family>     (deep probes: timeout:deep:<construct>:<position>:<host>)
   c12:<rule>                     (json-roundtrip, initial-missing, initial-priority, key-id,
                                   token-kind, target-undefined[:nested])
   oracle-assumption:<oracle>:<ExceptionName>   (ast.parse left its two-outcome contract)
@@ -52,6 +55,7 @@ LINK_HEADER = ("\nFrom Bardic Require Import ParseBlocks ParseBlocksInst ParseAl
                "Definition pcase_show_l := pcase_show_x real_extractors.")
 
 ALARM_S = 5
+DEEP_ALARM_S = 20     # for the deep-nesting probes of more than 20000 characters
 MAX_MODEL_LINE = 1500  # longer lines (only the pinned deep-nesting probes) are not sent to Coq: the model's string
                       # accumulators are quadratic
 MAX_MODEL_LINES = 2500 # inputs of more lines (the far-above-cap block-nesting probes) are not sent to Coq either
@@ -687,12 +691,12 @@ class Probe:
         return False
 
 
-def compile_real(text):
+def compile_real(text, alarm_s=None):
     """(outcome, probe): outcome as in `outcome`, plus ('timeout',)."""
     from bardic.compiler.compiler import BardCompiler
     with Probe() as pr:
         try:
-            with C.alarm(ALARM_S):
+            with C.alarm(alarm_s or ALARM_S):
                 oc = outcome(BardCompiler().compile_string, text)
         except C.Timeout:
             oc = ("timeout",)
@@ -983,8 +987,8 @@ def deep_inputs(rng, quick):
                 depths = INLINE_DEPTHS
             else:
                 slot = (hi - 6 * pi) % len(hosts)          # 0..17, a different rotation of the hosts per position
-                depths = [49, 50, 51] + ([2, 60] if slot % 3 == 0 else []) + ([600] if slot < 4 else []) + \
-                    ([1500] if slot == 4 and pi % 3 == 0 else [])
+                depths = [50, 51] + ([2, 49, 60] if slot % 3 == 0 else []) + ([600] if slot < 2 else []) + \
+                    ([1500] if slot == 2 and pi % 4 == 0 else [])
             for d in depths:
                 if pos == "both" and d > 600:
                     continue
@@ -994,9 +998,9 @@ def deep_inputs(rng, quick):
             for host, mk in BLOCK_HOSTS.items():
                 if host != "passage-body" and (form != "closed" and kind not in ("if-then", "for")):
                     continue              # the other hosts: every kind closed, the two plain kinds in every form
-                depths = BLOCK_DEPTHS if not quick else [2, 99, 100, 101, 110, 600] + ([3000] if rng.random() < 0.15 else [])
+                depths = BLOCK_DEPTHS if not quick else [2, 99, 100, 101, 600] + ([3000] if rng.random() < 0.15 else [])
                 for d in depths:
-                    for indent in ((False, True) if d <= 110 and (not quick or rng.random() < 0.5) else (False,)):
+                    for indent in ((False, True) if d <= 110 and (not quick or rng.random() < 0.3) else (False,)):
                         out.append((f"deep:block:{kind}/{form}{'/indented' if indent else ''}:{host}:{depth_class(d, BLOCK_CAP)}",
                                     mk(nest_blocks(d, kind, form, indent))))
     # inline conditionals inside nested blocks: both recursions at once
@@ -1097,15 +1101,16 @@ JOIN_CALLS = [("join-choice-with-arguments", lambda a: ["+ [Wait] -> @join" + ("
 
 
 def call_matrix(rng, quick):
-    """[(family, lines, compare_with_model)].  The direct oracle sees the full matrix; the model is compared on every
-    (parameters, shape) pair at one drawn site plus a drawn share of the rest (quick) or on everything (thorough)."""
+    """[(family, lines, compare_with_model)].  thorough: the full matrix, all of it compared with the model.  quick: every
+    (parameters, shape) pair at 6 drawn call sites out of 18; the model is compared at one of them plus a drawn share
+    of the rest."""
     out = []
     for ci, params in enumerate(PARAM_CONFIGS):
         nreq = sum(1 for _, d in params if d is None)
         cfg = f"params-{len(params)}-required-{nreq}"
         shapes = call_shapes(params)
         for shape, args in shapes:
-            sites = list(CALL_SITES)
+            sites = list(CALL_SITES) if not quick else rng.sample(list(CALL_SITES), 6)
             drawn = rng.choice(sites)
             for site in sites:
                 call = "T" + ("" if args is None else f"({args})")
@@ -1117,7 +1122,7 @@ def call_matrix(rng, quick):
                 lines = [l for part in parts for l in part + [""]]
                 if parts[0] is not caller:
                     lines = ["@start Start"] + lines
-                cmp_ = (not quick) or site == drawn or rng.random() < 0.04
+                cmp_ = (not quick) or site == drawn or rng.random() < 0.08
                 out.append((f"call-shape:{cfg}:{shape.split(':')[0] if shape.startswith('malformed') else shape}:{site}", lines, cmp_))
     for name, mk in JOIN_CALLS:
         for args in (None, "", "1", "1, 2", "x=1", "1 2"):
@@ -1207,7 +1212,13 @@ def run(tier: str, seed: int) -> int:
     chk = C.Check("C11", tier, seed, "proof + correspondence + direct oracle")
     props = C.coq_gate(chk)
     # ---------------- part B: the block extractors (harness/c11b.py, Props/C11b.v) ----------------
+    import time as _t
+    _t0 = _t.time()
+    def _tick(what):
+        if os.environ.get("C11_TIMING"):
+            print(f"[timing] {what}: {_t.time() - _t0:.1f}s", flush=True)
     props_b, sub = run_part_b(chk, tier, seed)
+    _tick("part B done")
     if props_b is None or not props_b.get("ok"):
         chk.violations.append(("coq-props", "Props/C11b.v does not check or depends on axioms",
                                {"no_failing_input_found": True, "obligation": "Props/C11b.v",
@@ -1248,13 +1259,18 @@ def run(tier: str, seed: int) -> int:
             chk.disagree("line-coqc", "a line-level case shard failed to evaluate", {"log": log})
     for t, d in lcases:
         chk.count(("l", d["function"], d["input"]), True)
+    _tick("line-level correspondence done")
 
     # ---------------- inputs for (b), (c), (d) ----------------
     inputs = []          # (family, lines, compare with the model)
     for name, text in pinned_inputs():
         inputs.append(("pinned:" + name, text.split("\n"), True))
     for fam, ls in deep_inputs(rng, quick):
-        inputs.append((fam, ls, True))
+        # the model needs 0.3 - 1.5 s of vm_compute per deep case (its string accumulators are quadratic): the direct
+        # oracle sees every probe, the model a drawn share of them (all of the shallow ones)
+        d = int(fam.rsplit(":d", 1)[1])
+        share = 1.0 if d <= 3 else (0.04 if quick else 0.2)
+        inputs.append((fam, ls, rng.random() < share))
     inputs += call_matrix(rng, quick)
     for _ in range(n_gen_plain):
         inputs.append(("generated-plain", gen_story_lines(rng, blocks=False), True))
@@ -1283,9 +1299,9 @@ def run(tier: str, seed: int) -> int:
     # ---------------- (c) totality oracle, (d) C12 validator, and the cases of (b) ----------------
     pterms, pmeta = [], []
     skipped = {"block-construct": 0, "non-ascii": 0, "framework-or-legacy": 0, "outside-the-model": 0, "line-too-long-for-vm_compute": 0,
-               "too-many-lines-for-vm_compute": 0, "call-shape-not-drawn-for-the-model": 0}
+               "too-many-lines-for-vm_compute": 0, "not-drawn-for-the-model": 0}
     n_timeouts = 0
-    deep_ev = {"probes": 0, "by_construct_and_position": {}, "by_host": {}, "by_depth_class": {}, "outcomes": {}}
+    deep_ev = {"probes": 0, "compared_with_model": 0, "by_construct_and_position": {}, "by_host": {}, "by_depth_class": {}, "outcomes": {}}
     call_ev = {"stories": 0, "by_parameters": {}, "by_shape": {}, "by_site": {}, "outcomes_by_shape": {}, "compared_with_model": 0}
 
     def bump(d, k, n=1):
@@ -1297,7 +1313,9 @@ def run(tier: str, seed: int) -> int:
         if n_timeouts >= MAX_TIMEOUTS:
             chk.notes["aborted_after_timeouts"] = f"{n_timeouts} inputs hung; the remaining inputs were not compiled"
             break
-        oc, pr = compile_real(text)
+        # the far-above-cap probes are tens of kilobytes long and take up to a second or two on a busy machine
+        limit = DEEP_ALARM_S if fam.startswith("deep:") and len(text) > 20000 else ALARM_S
+        oc, pr = compile_real(text, limit)
         n_timeouts += oc[0] == "timeout"
         cls = oc[0] if oc[0] != "other" else "other:" + oc[1]
         shape_tag = fam.split(":", 1)[1] if fam.startswith("pinned:") else None
@@ -1332,7 +1350,7 @@ def run(tier: str, seed: int) -> int:
         if shape_tag and not fam.startswith("pinned:"):
             replay["case"] = shape_tag
         if oc[0] == "timeout":
-            chk.report(f"timeout:{shape_tag or fam}", f"compile_string did not return within {ALARM_S}s", replay)
+            chk.report(f"timeout:{shape_tag or fam}", f"compile_string did not return within {limit}s", replay)
         elif oc[0] == "other":
             chk.report(f"internal-error:{oc[1]}:{oc[2]}", f"compile_string raised {oc[1]} (in {oc[2]}) on a {fam} input", replay)
         for mode, exn in pr.gave_up:
@@ -1361,9 +1379,10 @@ def run(tier: str, seed: int) -> int:
             skipped["too-many-lines-for-vm_compute"] += 1
             continue
         if not cmp_model:
-            skipped["call-shape-not-drawn-for-the-model"] += 1
+            skipped["not-drawn-for-the-model"] += 1
             continue
         call_ev["compared_with_model"] += fam == "call-shape-matrix"
+        deep_ev["compared_with_model"] += fam.startswith("deep-nesting:")
         if oc[0] == "timeout" or (oc[0] == "other" and oc[1] == "RecursionError") or pr.oracle_escapes:
             skipped["outside-the-model"] += 1     # reported above; stack depth and hangs are not outcomes of the model
             continue
@@ -1373,6 +1392,7 @@ def run(tier: str, seed: int) -> int:
             skipped["framework-or-legacy"] += 1
             continue
         pmeta.append({"family": fam, "source": text, "implementation": cls, **({"case": shape_tag} if shape_tag else {})})
+    _tick(f"compile loop done ({len(inputs)} inputs, {len(pterms)} model cases)")
     if LINK_BLOCKS:
         bad, shown, log = C.run_coq_cases(chk.scratch, HEADER + LINK_HEADER, pterms, "pcase", "pcase_bad_l",
                                           show_fn="pcase_show_l", shard=120)
@@ -1387,6 +1407,7 @@ def run(tier: str, seed: int) -> int:
                                   f"(implementation: {d['implementation']})", d)
         else:
             chk.disagree("parse-coqc", "a whole-parse case shard failed to evaluate", {"log": log[-3000:]})
+    _tick("whole-parse correspondence done")
     b_cov = sub.cov
     chk.cov["programs"] = len(lcases) + len(inputs) + b_cov.get("programs", 0)
     chk.cov["disagreements_checked"] = len(lcases) + len(pterms) + b_cov.get("disagreements_checked", 0)
